@@ -74,3 +74,26 @@ SOLVER_KW = {
     "per": dict(gamma=0.95, period=3, clear_value_history_on_convergence=False),
     "sa": dict(gamma=0.9, max_batch_size=5, shuffle_states=False),
 }
+
+
+def variant_kw(sv, rng, idx=None):
+    """Solver-specific options per case (every option that adds or changes runtime state).  With
+    ``idx`` the state-affecting options cycle deterministically so that a small tier covers each."""
+    if idx is not None:
+        if sv == "pi":
+            return dict(max_eval_iter=[3, 20, 2][idx % 3], reset_values_for_each_policy_eval=bool((idx + 1) % 2),
+                        convergence_test=["span", "max_diff"][(idx // 2) % 2])
+        if sv == "per":
+            return dict(period=[3, 2, 5][idx % 3], gamma=[0.95, 1.0, 0.9][idx % 3])
+        if sv == "vi":
+            return dict(convergence_test=["max_diff", "span"][idx % 2], max_batch_size=[5, 1024, 64][idx % 3])
+    if sv == "vi":
+        return dict(convergence_test=str(rng.choice(["span", "max_diff"])), max_batch_size=int(rng.choice([5, 64, 1024])))
+    if sv == "pi":
+        return dict(max_eval_iter=int(rng.choice([2, 3, 20])), reset_values_for_each_policy_eval=bool(rng.integers(0, 2)),
+                    convergence_test=str(rng.choice(["span", "max_diff"])))
+    if sv == "rvi":
+        return dict(max_batch_size=int(rng.choice([7, 64, 1024])))
+    if sv == "per":
+        return dict(period=int(rng.choice([2, 3, 5])), gamma=float(rng.choice([0.95, 0.9, 1.0])))
+    return dict(max_batch_size=int(rng.choice([3, 5, 64])), convergence_test=str(rng.choice(["span", "max_diff"])))
